@@ -453,6 +453,7 @@ def arm_progs():
         p.append(single("%s(imm) A1 pre-indexed" % name, arm_h(0xE1E12000 | lo, 8), False, 32, 8, load, "pre", 8, dual=True))
         p.append(single("%s(imm) A1 post-indexed" % name, arm_h(0xE0C12000 | lo, 8), False, 32, 8, load, "post", 8, dual=True))
     p.append(single("LDRD(imm) A1 Rt==Rn", 0xE1C220D0, False, 32, 8, True, "off", 0, n=2, t=2, dual=True))
+    p.append(single("LDRD(reg) A1 Rt==Rn", 0xE18220D4, False, 32, 8, True, "off", 0x10, n=2, t=2, dual=True, offreg=4))
     # condition fails: no access, no fault
     p.append(single("LDR(imm) A1 cond-fails", 0x05B12004, False, 32, 4, True, "pre", 4, executes=False))
     p.append(multi("STMIA A1 cond-fails", 0x08A1003C, False, 32, "IA", 1, [2, 3, 4, 5], False, executes=False))
@@ -468,6 +469,8 @@ def arm_progs():
     p.append(multi("LDMIA A1 base-lowest-in-list", 0xE891001E, False, 32, "IA", 1, [1, 2, 3, 4], True))
     p.append(multi("LDMIA A1 base-mid-list", 0xE893003C, False, 32, "IA", 3, [2, 3, 4, 5], True))
     p.append(multi("LDMDB A1 base-lowest-in-list", 0xE911001E, False, 32, "DB", 1, [1, 2, 3, 4], True))
+    p.append(multi("LDMIB A1 base-lowest-in-list", 0xE991001E, False, 32, "IB", 1, [1, 2, 3, 4], True))
+    p.append(multi("LDMDA A1 base-lowest-in-list", 0xE811001E, False, 32, "DA", 1, [1, 2, 3, 4], True))
     p.append(multi("STMIA A1 write-back base-lowest-in-list", 0xE8A1000E, False, 32, "IA", 1, [1, 2, 3], False))
     p.append(multi("LDMIA A1 write-back pc-in-list", 0xE8B1800C, False, 32, "IA", 1, [2, 3, 15], True))
     p.append(multi("PUSH A1", 0xE92D403C, False, 32, "DB", 13, [2, 3, 4, 5, 14], False))
@@ -516,6 +519,8 @@ def thumb_progs():
     p.append(multi("LDMDB T1 write-back", 0xE931003C, True, 32, "DB", 1, L4, True))
     p.append(multi("STMDB T1 write-back", 0xE921003C, True, 32, "DB", 1, L4, False))
     p.append(multi("LDMIA T2 base-in-list", 0xE893003C, True, 32, "IA", 3, L4, True))
+    p.append(multi("LDMDB T1 base-in-list", 0xE913003C, True, 32, "DB", 3, L4, True))
+    p.append(single("LDRD(imm) T1 Rt==Rn", 0xE9D22300, True, 32, 8, True, "off", 0, n=2, t=2, dual=True))
     p.append(multi("PUSH T2", 0xE92D403C, True, 32, "DB", 13, [2, 3, 4, 5, 14], False))
     p.append(multi("POP T2", 0xE8BD003C, True, 32, "IA", 13, L4, True))
     return p
